@@ -140,6 +140,9 @@ func printBits(blk int) string {
 		v := 0
 		for k := 0; k < 2; k++ {
 			r := rune(blk*4096 + i*2 + k)
+			if inUnicodeGap(r) {
+				continue // assigned after Unicode 13: not printable in the tables Wa carries
+			}
 			if strconv.IsPrint(r) {
 				v |= 1 << uint(2*k)
 			}
@@ -150,6 +153,22 @@ func printBits(blk int) string {
 		b[i] = d[v]
 	}
 	return string(b)
+}
+
+func init() {
+	// Unicode-table-version dependent functions: stay off the runes assigned after Unicode 13
+	for _, id := range []string{"Quote", "QuoteToASCII", "QuoteToGraphic", "rt:Quote/Unquote"} {
+		registry["strconv."+id].Dom(func(a A) bool { return noGapRunes(a.Str(0)) })
+	}
+	for _, id := range []string{"AppendQuote", "AppendQuoteToASCII", "AppendQuoteToGraphic"} {
+		registry["strconv."+id].Dom(func(a A) bool { return noGapRunes(a.Str(1)) })
+	}
+	for _, id := range []string{"QuoteRune", "QuoteRuneToASCII", "QuoteRuneToGraphic", "IsPrint", "IsGraphic"} {
+		registry["strconv."+id].Dom(func(a A) bool { return !inUnicodeGap(a.Rune(0)) })
+	}
+	for _, id := range []string{"AppendQuoteRune", "AppendQuoteRuneToASCII", "AppendQuoteRuneToGraphic"} {
+		registry["strconv."+id].Dom(func(a A) bool { return !inUnicodeGap(a.Rune(1)) })
+	}
 }
 
 const numPrintBlocks = 0x111 // runes 0 .. 0x110FFF: all of Unicode plus one block above MaxRune
